@@ -74,7 +74,8 @@ Proof. exact example_nontrivial. Qed.
 
 (* Fault stream (outside the property's quantifier; judged on the clause "STOP closes all files"): a STOP issued in
    any reachable state while the experiment-state file cannot be written still takes the writers from every
-   channel, leaves no channel data file open and nothing is stored afterwards - whatever it replies. *)
+   channel, leaves no channel data file open, nothing is stored afterwards and the reported state says inactive -
+   whatever it replies. *)
 Theorem stop_under_fault_closes_channel_files :
   forall (c : config) (ops : list op), fault_stop_ok (fault_obs (fst (run (init c) ops))) = true.
 Proof. exact fault_stop_reachable. Qed.
